@@ -27,7 +27,7 @@ use bevy_replicon::prelude::*;
 use bytes::Bytes;
 use serde_json::{Value, json};
 
-const CHANNELS: usize = 2;
+const CHANNELS: usize = 3;
 
 fn payload(n: u64) -> Bytes {
     Bytes::from((n as u32).to_le_bytes().to_vec())
